@@ -13,6 +13,8 @@
 (*   HistoryFree  the answer equals the answer from an empty memo           *)
 (*   SideHolds    floor/down answers are <= C, ceiling/up answers are >= C  *)
 (*   Within1Ulp   every answer is within one unit in the last place         *)
+(*   AbortSafe    an exception inside the fixed-point routine leaves the memo   *)
+(*                exactly as it was                                           *)
 (*   Correct      the answer is the correctly rounded constant unless C     *)
 (*                lies within 2^-wp of a rounding boundary (Ambiguous)      *)
 (* With FixedErr = 1 (a routine that may return floor - 1) HistoryFree is   *)
@@ -63,7 +65,13 @@ Request(p, rnd) ==
                          ans |-> Answer(mp2, mv2, p, rnd),
                          scratch |-> Answer(np, TrueFloor(np), p, rnd)]
   /\ n' = n + 1 /\ C' = C
-Next == Choose \/ \E p \in 1..PMAX, rnd \in Modes : Request(p, rnd)
+\* an exception escapes from the fixed-point routine of a miss: neither memo field is assigned
+\* (the code assigns memo_val from the routine's result first and memo_prec afterwards)
+AbortRequest(p) ==
+  /\ n >= 0 /\ n < HL /\ p + G > memoPrec
+  /\ last' = [k |-> "abort", p |-> p, before |-> <<memoPrec, memoVal>>]
+  /\ n' = n + 1 /\ UNCHANGED <<C, memoPrec, memoVal>>
+Next == Choose \/ \E p \in 1..PMAX : AbortRequest(p) \/ \E rnd \in Modes : Request(p, rnd)
 Spec == Init /\ [][Next]_vars
 
 Req == last.k = "req"
@@ -74,5 +82,6 @@ SideHolds == Req =>
      /\ (last.rnd \in {"c", "u"} => c >= 0)
 Within1Ulp == Req => WithinUlpsQ2(last.ans, FALSE, C, Pow2(NB), 0, last.p, 1)
 Correct == Req /\ last.rnd \in {"n", "f", "d"} /\ ~Ambiguous(last.p, last.rnd) => last.ans = Exactly(last.p, last.rnd)
+AbortSafe == last.k = "abort" => <<memoPrec, memoVal>> = last.before
 MemoIsFloor == memoPrec >= 0 /\ FixedErr = 0 => memoVal = TrueFloor(memoPrec)
 =============================================================================
